@@ -72,6 +72,27 @@ def run(ctx):
     withe = DisjointShape([E, S, E, C])
     ctx.check(withe == DisjointShape([S, C]) and withe == DisjointShape([C, E, S]), "Empty entries are not ignored", {})
     ctx.check(DisjointShape([E, S]) == S, "DisjointShape([Empty, S]) is not S", {})
+    # ---- nesting two levels deep: a ring inside the hole of a ring
+    def sq(h, c=(0, 0)):
+        return [(c[0] - h, c[1] - h), (c[0] + h, c[1] - h), (c[0] + h, c[1] + h), (c[0] - h, c[1] + h)]
+    for c in ((0, 0), (F(7, 2), F(-1, 3))):
+        Aq, Qq, Iq, Pq = (shapes.simple(sq(h, c)) for h in (8, 6, 4, 2))
+        outer_ring, inner_ring = Aq - Qq, Iq - Pq
+        direct = DisjointShape([ConnectedShape([shapes.simple(sq(8, c)), shapes.simple(sq(6, c)[::-1])]), ConnectedShape([shapes.simple(sq(4, c)), shapes.simple(sq(2, c)[::-1])])])
+        built = outer_ring | inner_ring
+        ctx.case("two-level-nesting", c)
+        tok = "D 2 2 " + core.epoly(sq(8, c)) + " " + core.epoly(sq(6, c)[::-1]) + " 2 " + core.epoly(sq(4, c)) + " " + core.epoly(sq(2, c)[::-1])
+        for X, nm in ((direct, "DisjointShape([ring, ring])"), (built, "ring | ring"), (DisjointShape([inner_ring, outer_ring]), "reversed order"), (~~built, "double complement")):
+            ctx.check(impl.kind(X) == "Disjoint" and drv.ask(f"regioneq {core.eshape(X)} {tok}") == "ok", "ring inside the hole of a ring: wrong region or kind", {"centre": c, "how": nm}, None, impl.kind(X))
+            pts = [(c[0], c[1]), (c[0] + 3, c[1]), (c[0] + 5, c[1]), (c[0] + 7, c[1]), (c[0] + 9, c[1])]
+            ctx.check([p in X for p in pts] == [False, True, False, True, False], "ring inside the hole of a ring: containment", {"centre": c, "how": nm}, None, [p in X for p in pts])
+        ctx.check(direct == built and built == direct, "directly built nested rings are not == to the operator result", {"centre": c})
+    # exactly one real shape among Empty entries
+    for lst_name, lst in (("[S, E]", [S, E]), ("[E, C]", [E, C]), ("[E, S, E]", [E, S, E])):
+        X = DisjointShape(lst)
+        real = [x for x in lst if x is not E][0]
+        ctx.case("collapse", lst_name)
+        ctx.check(type(X) is type(real) and X == real and real == X and X is not real, "DisjointShape of one shape and Empty entries is not a copy of that shape", {"list": lst_name}, type(real).__name__, type(X).__name__)
     # ---- curved members
     big = Primitive.circle(radius=3)
     hole = Primitive.circle(radius=1, center=(0.5, 0.25))
